@@ -80,7 +80,7 @@ def run(ctx):
             cases.append(("gen", U.gen_history(ctx.rng, ctx.rng.choice([10, 25, 40, 60]), foolscap=0.5), False))
     lines, impl, recs = [], [], []
     for kind, ops, concrete in cases:
-        conc, line, out, viol = U.run_history(ctx, "C22", ops, concrete=concrete)
+        conc, line, out, viol = U.run_history(ctx, "C22", ops, concrete=concrete, dirs=True)
         lines.append(line)
         impl.append(out)
         recs.append({"ops": conc})
@@ -93,7 +93,7 @@ def run(ctx):
         for what, sig, detail in viol:
             ctx.violation(what, {"ops": conc}, sig, detail)
     model = ctx.model(lines)
-    ctx.compare("immutable storage history (results, written ranges, container bytes on disk)", recs, impl, model)
+    ctx.compare("immutable storage history (results, written ranges, container bytes on disk, directory tree after every op)", recs, impl, model)
     ctx.sample({"line": lines[0][:300], "impl": impl[0][:300]})
     if len(lines) > len(CORPUS):
         ctx.sample({"line": lines[len(CORPUS)][:300], "impl": impl[len(CORPUS)][:300]})
